@@ -94,7 +94,11 @@ def cache_obls(prefix):
             defs["VP_ENV"] = 1
         name = "%s.cache-%s-%s-E%d%s" % (prefix, "api" if api else "shard", CACHE_OPS[op], e, "-env" if env else "")
         out.append(Obl(name, "C10/cache.c", include_real=["util/cache.c"], kit=KIT, defs=defs,
-                       unwind=18, unwindset={"memcpy.0": 3, "memcmp.0": 3},
+                       unwind=18,
+                       # the resize path of lru_table_insert is infeasible at this size (elems <= 4 == length): bound 1 + unwinding assertion proves it
+                       unwindset={"memcpy.0": 3, "memcmp.0": 3, "memset.0": 1, "lru_table_resize.0": 1, "lru_table_resize.1": 1,
+                                  "lru_table_resize.2": 1, "lru_shard_insert.0": e + 2, "lru_shard_prune.0": e + 2,
+                                  "lru_table_find.0": e + 2},
                        replace_calls=(["ldb_lru_shard:vp_lru_shard"] if api else []),
                        flags=["--slice-formula"], tier=tier, timeout=300,
                        functions=CACHE_FUNCS[op] + ([CACHE_API[op], "ldb_lru_hash"] if api else []),
